@@ -641,6 +641,20 @@ pub fn logical_null_column(rng: &mut Rng, rows: usize) -> (DataType, ArrayRef) {
     (a.data_type().clone(), a)
 }
 
+/// the type with every dictionary replaced by its value type
+fn undict(t: &DataType) -> DataType {
+    let f = |f: &Arc<Field>| Arc::new(Field::new(f.name(), undict(f.data_type()), f.is_nullable()));
+    match t {
+        DataType::Dictionary(_, v) => undict(v),
+        DataType::List(x) => DataType::List(f(x)),
+        DataType::LargeList(x) => DataType::LargeList(f(x)),
+        DataType::FixedSizeList(x, n) => DataType::FixedSizeList(f(x), *n),
+        DataType::Map(x, o) => DataType::Map(f(x), *o),
+        DataType::Struct(fs) => DataType::Struct(fs.iter().map(|x| f(x)).collect::<Vec<_>>().into()),
+        other => other.clone(),
+    }
+}
+
 fn has_duration(t: &DataType) -> bool {
     match t {
         DataType::Duration(_) => true,
@@ -696,6 +710,7 @@ pub fn round_trips(args: &Args, rng: &mut Rng, tr: &mut Shards) -> (usize, usize
         let explicit = rng.chance(50) || schema.fields().iter().any(|f| has_map(f.data_type()));
         let parts: Vec<RecordBatch> = if nrows >= 2 && rng.chance(40) { vec![batch.slice(0, 1), batch.slice(1, nrows - 1)] } else { vec![batch.clone()] };
         let wb = WriterBuilder::new().with_explicit_nulls(explicit).with_struct_mode(smode);
+        if std::env::var("C17_DEBUG").is_ok() { eprintln!("json write {}", norm_schema(&schema)); }
         let written = guarded(|| {
             let mut out = Vec::new();
             if array_framing {
@@ -737,20 +752,35 @@ pub fn round_trips(args: &Args, rng: &mut Rng, tr: &mut Shards) -> (usize, usize
         }
         let bs = *rng.pick(&[1usize, 2, 1024]);
         let mut unsupported = false;
-        let back = guarded(|| {
-            let rd = ReaderBuilder::new(schema.clone()).with_struct_mode(smode).with_flatten(array_framing).with_batch_size(bs).build(Cursor::new(text.clone())).map_err(|e| (format!("open:{}", variant(&e)), e.to_string()))?;
-            let mut rows = vec![];
-            let sch = norm_schema(&rd.schema());
-            for b in rd {
-                let b = b.map_err(|e| (format!("read:{}", variant(&e)), e.to_string()))?;
-                rows.extend(tok::batch_rows(&b));
+        if std::env::var("C17_DEBUG").is_ok() { eprintln!("json read {}", norm_schema(&schema)); }
+        let read_back = |rs: Arc<Schema>| {
+            guarded(|| {
+                let rd = ReaderBuilder::new(rs.clone()).with_struct_mode(smode).with_flatten(array_framing).with_batch_size(bs).build(Cursor::new(text.clone())).map_err(|e| (format!("open:{}", variant(&e)), e.to_string()))?;
+                let mut rows = vec![];
+                let sch = norm_schema(&rd.schema());
+                for b in rd {
+                    let b = b.map_err(|e| (format!("read:{}", variant(&e)), e.to_string()))?;
+                    rows.extend(tok::batch_rows(&b));
+                }
+                Ok::<_, (String, String)>((rows, sch))
+            })
+        };
+        let is_unsupported = |e: &str, msg: &str| e.ends_with("NotYetImplemented") || msg.contains("not supported") || msg.contains("Unsupported") || msg.contains("unsupported") || msg.contains("not yet implemented");
+        let mut read_schema = schema.clone();
+        let mut back = read_back(read_schema.clone());
+        if matches!(&back, Ok(Err((e, msg))) if is_unsupported(e, msg)) {
+            // the reader has no dictionary decoder: read the same text with the dictionaries replaced by their value
+            // types (row tokens denote values, so rows out = rows in is still the statement)
+            let plain = Arc::new(Schema::new(schema.fields().iter().map(|f| Field::new(f.name(), undict(f.data_type()), f.is_nullable())).collect::<Vec<_>>()));
+            if plain != schema {
+                read_schema = plain;
+                back = read_back(read_schema.clone());
             }
-            Ok::<_, (String, String)>((rows, sch))
-        });
+        }
         let (outcome, rows_out, schema_out) = match back {
             Ok(Ok((r, s))) => ("ok".to_string(), r, s),
             Ok(Err((e, msg))) => {
-                unsupported = e.ends_with("NotYetImplemented") || msg.contains("not supported") || msg.contains("Unsupported") || msg.contains("unsupported") || msg.contains("not yet implemented");
+                unsupported = is_unsupported(&e, &msg);
                 (format!("err:{e}"), vec![], String::new())
             }
             Err(p) => (format!("panic:{}", safe(&p.chars().take(60).collect::<String>())), vec![], String::new()),
@@ -763,7 +793,7 @@ pub fn round_trips(args: &Args, rng: &mut Rng, tr: &mut Shards) -> (usize, usize
             "op": "json_rt", "framing": if array_framing { "array" } else { "lines" }, "explicit_nulls": explicit,
             "smode": if smode == StructMode::ListOnly { "list" } else { "object" },
             "nrows": nrows, "text": cps(&text_s), "wout": "ok",
-            "rows_in": strs(&tok::batch_rows(&batch)), "rows_out": strs(&rows_out), "schema_in": norm_schema(&schema), "schema_out": schema_out,
+            "rows_in": strs(&tok::batch_rows(&batch)), "rows_out": strs(&rows_out), "schema_in": norm_schema(&read_schema), "schema_written": norm_schema(&schema), "schema_out": schema_out,
             "outcome": outcome, "bs": bs, "has_duration": schema.fields().iter().any(|f| has_duration(f.data_type())),
         }));
         tr.next_episode();
